@@ -523,6 +523,8 @@ func (r *replayer) dispatch(line []byte) error {
 		r.textCase(c)
 	case "C04F":
 		return r.faultCase(line)
+	case "C02R":
+		return r.acceptedAlikeCase(line)
 	case "C04Q":
 		var c FrontCase
 		if err := json.Unmarshal(line, &c); err != nil {
